@@ -34,6 +34,22 @@ func aborts() int { return verif_ghost_int("aborts") }
 // listener. An uninterpreted function; recoverOnCall's precondition states its defining recursion.
 func listened(n int) uint64 { return verif_uf_u64("listened", n) }
 
+// befores / afters count the Before and After notifications delivered to function listeners.
+func befores() int { return verif_ghost_int("befores") }
+func afters() int  { return verif_ghost_int("afters") }
+
+// evOK: the event counters are far from the 64-bit limits (fewer than 2^62 events so far): keeps
+// the bit-precise arithmetic on them free of wrap-around.
+func evOK() bool {
+	return befores() >= 0 && afters() >= 0 && befores() < 1<<62 && afters() < 1<<62
+}
+
+// itReady: the stack iterator handed to Before was reset for the callee (not the cleared one).
+func itReady(it experimental.StackIterator, callee api.FunctionDefinition) bool {
+	si, ok := it.(*stackIterator)
+	return ok && si != nil && si.fn != nil && !si.started && si.pc == 0
+}
+
 func isSnapshot(v interface{}) bool { _, ok := v.(*snapshot); return ok }
 
 //@ prop C06 C20
@@ -77,3 +93,59 @@ func isSnapshot(v interface{}) bool { _, ok := v.(*snapshot); return ok }
 //@   loop 1 (functionListeners []functionListenerInvocation, rangeindex int)
 //@     invariant aborts() == old[int](aborts()) + rangeindex + 1
 //@     invariant uint64(len(functionListeners)) == listened(old[int](len(ce.frames)))
+
+// ---- C20: Before/After bracketing in the interpreter's call paths.
+// Listener and host-function interfaces (assumed): a listener event is counted; whatever a host
+// function does (including calling back into the guest) is itself bracketed.
+//@ iface (l experimental.FunctionListener) Before(ctx context.Context, mod api.Module, def api.FunctionDefinition, params []uint64, stackIterator experimental.StackIterator)
+//@   requires itReady(stackIterator, def)
+//@   ensures befores() == old(befores()) + 1 && evOK()
+//@   modifies ghost("befores")
+//@ iface (l experimental.FunctionListener) After(ctx context.Context, mod api.Module, def api.FunctionDefinition, results []uint64)
+//@   ensures afters() == old(afters()) + 1 && evOK()
+//@   modifies ghost("afters")
+//@ iface (f api.GoModuleFunction) Call(ctx context.Context, mod api.Module, stack []uint64)
+//@   ensures befores()-afters() == old(befores()-afters()) && befores() >= old(befores()) && evOK()
+//@   modifies all
+//@ iface (f api.GoFunction) Call(ctx context.Context, stack []uint64)
+//@   ensures befores()-afters() == old(befores()-afters()) && befores() >= old(befores()) && evOK()
+//@   modifies all
+
+// The interpreter main loop (3.6 kLOC switch) is not under contract: ASSUMED to emit listener events
+// only through callFunction, hence balanced on normal return.
+//@ func (ce *callEngine) callNativeFunc(ctx context.Context, m *wasm.ModuleInstance, f *function)
+//@   trusted
+//@   ensures befores()-afters() == old(befores()-afters()) && befores() >= old(befores()) && evOK()
+//@   modifies all
+
+//@ func (ce *callEngine) callNativeFuncWithListener(ctx context.Context, m *wasm.ModuleInstance, f *function, fnl experimental.FunctionListener) context.Context
+//@   requires f != nil && fnl != nil && evOK()
+//@   ensures[bracketed] befores()-afters() == old(befores()-afters())
+//@   ensures[seen] befores() >= old(befores()) + 1
+//@   nosafety
+
+//@ func (ce *callEngine) callGoFunc(ctx context.Context, m *wasm.ModuleInstance, f *function, stack []uint64)
+//@   requires f != nil && f.parent != nil && evOK()
+//@   ensures[bracketed] befores()-afters() == old(befores()-afters())
+//@   ensures[seen] old(f.parent.listener != nil) ==> befores() >= old(befores()) + 1
+//@   nosafety
+
+//@ func (ce *callEngine) callGoFuncWithStack(ctx context.Context, m *wasm.ModuleInstance, f *function)
+//@   requires f != nil && f.parent != nil && evOK()
+//@   ensures[bracketed] befores()-afters() == old(befores()-afters())
+//@   ensures[seen] old(f.parent.listener != nil) ==> befores() >= old(befores()) + 1
+//@   nosafety
+
+// Every call made through callFunction - guest or host callee - is seen by the callee's listener.
+//@ func (ce *callEngine) callFunction(ctx context.Context, m *wasm.ModuleInstance, f *function)
+//@   requires f != nil && f.parent != nil && evOK()
+//@   ensures[bracketed] befores()-afters() == old(befores()-afters())
+//@   ensures[seen] old(f.parent.listener != nil) ==> befores() >= old(befores()) + 1
+//@   nosafety
+
+// Unbounded recursion is stopped: the call stack never exceeds its ceiling.
+//@ func (ce *callEngine) pushFrame(frame *callFrame)
+//@   ensures[pushed] len(ce.frames) == old(len(ce.frames)) + 1 && ce.frames[len(ce.frames)-1] == frame
+//@   ensures[bounded] len(ce.frames) <= callStackCeiling
+//@   may-panic len(ce.frames) >= callStackCeiling
+//@   modifies ce.frames, elems(ce.frames)
